@@ -245,6 +245,11 @@ func (e *vsEnv) upload(c *vsClient, a *vsAttempt) {
 		ft = fsFault{kind: a.fault.Kind, file: a.fault.File, write: a.fault.Pos, sticky: a.fault.Stick}
 	case "close":
 		ft = fsFault{kind: "close", file: a.fault.File}
+	case "disk-full":
+		ft = fsFault{kind: "disk-full", file: a.fault.File}
+		if _, err := os.Stat("/dev/full"); err != nil || e.fs.inner == nil {
+			ft = fsFault{kind: "write", file: a.fault.File, write: 0, sticky: true} // other personalities: every write fails
+		}
 	case "auth":
 		e.auth[c.name] = true
 	case "cut", "cut-eof":
@@ -826,7 +831,7 @@ func (e *vsEnv) genAttempt(faultsOn bool, force *vsFault) *vsAttempt {
 			a.fault.Pos = 1 + T.Intn(len(a.files[a.fault.File].text)+1, "abort-pos")
 		}
 	} else if faultsOn && T.Intn(3, "inject") != 0 {
-		kinds := []string{"nobench", "badfield", "abort", "cut", "cut-eof", "create", "write", "short-write", "close", "auth"}
+		kinds := []string{"nobench", "badfield", "abort", "cut", "cut-eof", "create", "write", "short-write", "close", "auth", "disk-full"}
 		a.fault.Kind = sim.Pick(T, kinds, "fault-kind")
 		a.fault.File = T.Intn(nf, "fault-file")
 		switch a.fault.Kind {
